@@ -1066,6 +1066,46 @@ def sweep_cases(nflags):
       out.append(seq(use(e1), g, use(e2), g))
   return out
 
+NEST_POOL = dict(
+    flag=[True, False], perm=[3, 255], str=[[[0, True]], [[0, False]]], repr=[[[0, True]], [[0, False]]],
+    view=[[[0, True]], [[0, False]]], ctx=[[[0, 1]], [[0, 2]]], contextual=[[[0, 1, False, False]], [[0, 2, False, False]]],
+    detour=[[[0, 1]], [[0, 2]]], wrappers=[[0], [1]], timeit=[0, 1], dyn=[1, 2], dyng=[1, 2], loadtypes=[[0], [2]],
+    collect=[0, 1], apply=[0, 1])
+NEST_POOL3 = dict(str=[[1, 2]], repr=[[1, 2]], view=[[0, {'d': [[0, True]]}]], ctx=[[1, 2]], flag=None)
+
+def nest_sweep(nflags):
+  """Every manager nested in ITSELF to depth 3 and 4 with every sequence of argument values from a pool of two, repeats included
+  (A>B>A, A>A>B, A>B>A>B, ...; for the keyword managers also depth 3 over three values), an observation after every enter and after
+  every exit, leaving normally or by an exception raised in the innermost body and caught outside level j (for every j)."""
+  import itertools
+  out = []
+  for cm in all_cms(nflags):
+    k = cm_kind(cm)
+    g = ['obs', getter_for(cm)]
+    pools = [(NEST_POOL[k], (3, 4))]
+    if NEST_POOL3.get(k) is not None:
+      pools.append((NEST_POOL[k] + [NEST_POOL3[k]], (3,)))
+    elif k == 'flag':
+      pools.append(([True, False, None], (3,)))
+    seen_seq = set()
+    for pool_, depths in pools:
+      for d in depths:
+        for seq_ in itertools.product(range(len(pool_)), repeat=d):
+          key = (d, tuple(json.dumps(pool_[i]) for i in seq_))
+          if key in seen_seq:
+            continue
+          seen_seq.add(key)
+          for caught_at in [None] + list(range(d)):
+            def build(level):
+              if level == d:
+                return seq(g, ['raise']) if caught_at is not None else g
+              node = ['scope', cm, pool_[seq_[level]], seq(g, build(level + 1), g) if level + 1 < d or caught_at is None else seq(g, build(level + 1))]
+              if caught_at == level:
+                node = ['catch', node]
+              return node
+            out.append(linearize(seq(g, build(0), g)))
+  return out
+
 def gen_block(rng, depth, cms, enclosing, p_raise):
   n = rng.choice([1, 1, 2, 2, 3])
   stmts = []
@@ -1209,6 +1249,11 @@ def run(ctx):
     det = rng.sample(det, 150)
   ctx.extra['detour_small_scope'] = dict(exhaustive=bool(ctx.thorough), cases=len(det), what='outer x inner mapping lists of length <= 2 over 3 classes')
   progs += [(p, 'detour-small-scope') for p in det]
+  nest = nest_sweep(nflags)
+  ctx.extra['nesting_sweep'] = dict(exhaustive=True, cases=len(nest),
+                                    what='every manager nested in itself to depth 3 and 4, every sequence of two argument values (keyword managers and flags: also depth 3 over three), '
+                                         'observation after every enter and exit, normal exit or exception caught outside level j for every j')
+  progs += [(p, 'nesting-sweep') for p in nest]
   trs, impl_outs, descrs = [], [], []
   seen = set()
   for p, kind in progs:
@@ -1321,7 +1366,7 @@ def run(ctx):
       continue
     oracle_evals += 1
     # the behavioural probes cost ~3 ms per scope: on every sweep / corpus program, on a quarter of the random ones (all in the thorough tier)
-    probes = ctx.thorough or not d['kind'].startswith('random') or (zlib.crc32(key.encode()) % 4 == 0)
+    probes = ctx.thorough or not (d['kind'].startswith('random') or d['kind'].startswith('nesting-sweep')) or (zlib.crc32(key.encode()) % 4 == 0 and d['kind'].startswith('random'))
     probe_evals += 1 if probes else 0
     hits = oracle_single(real, d['prog'], behaviour=probes)
     if hits:
